@@ -34,7 +34,7 @@ Allowed(e) ==
   /\ e.ev = "Call"
   /\ e.outcome \in {"value", "error"}
   /\ e.alloc_kib <= C0(e) + C1KiB * e.inlen
-TraceNext == l <= Len(Trace) /\ Allowed(Trace[l]) /\ l' = l + 1
+TraceNext == l <= Len(Trace) /\ Allowed(Trace[l]) = TRUE /\ l' = l + 1
 TraceSpec == TraceInit /\ [][TraceNext]_l
 TraceAccepted ==
   LET d == TLCGet("stats").diameter IN
